@@ -113,19 +113,19 @@ theorem prepare_ok (p : PeerTracker) (r : Req) (e : Ext) (w : Want) (hw : e.want
       | bad => simp [Ext.want?] at hw
       | absent =>
         simp only [Ext.want?, Option.some.injEq] at hw; subst hw
-        exact ⟨p, by simp [prepareQuery, runStages, runStage, stages], fin p (V_none hf)⟩
+        exact ⟨p, by simp [prepareQuery, runStages, runStage, stages, GS.Generated.PrepareQuery.stages], fin p (V_none hf)⟩
       | ok n =>
         simp only [Ext.want?, Option.some.injEq] at hw; subst hw
-        exact ⟨_, by simp [prepareQuery, runStages, runStage, stages], fin _ (V_skip (V_none hf) n)⟩
+        exact ⟨_, by simp [prepareQuery, runStages, runStage, stages, GS.Generated.PrepareQuery.stages], fin _ (V_skip (V_none hf) n)⟩
     | ok ls =>
       cases es with
       | bad => simp [Ext.want?] at hw
       | absent =>
         simp only [Ext.want?, Option.some.injEq] at hw; subst hw
-        exact ⟨_, by simp [prepareQuery, runStages, runStage, stages], fin _ (V_ignore (V_none hf) ls)⟩
+        exact ⟨_, by simp [prepareQuery, runStages, runStage, stages, GS.Generated.PrepareQuery.stages], fin _ (V_ignore (V_none hf) ls)⟩
       | ok n =>
         simp only [Ext.want?, Option.some.injEq] at hw; subst hw
-        exact ⟨_, by simp [prepareQuery, runStages, runStage, stages],
+        exact ⟨_, by simp [prepareQuery, runStages, runStage, stages, GS.Generated.PrepareQuery.stages],
           fin _ (V_skip (V_ignore (V_none hf) ls) n)⟩
   | ok k =>
     cases ei with
@@ -135,19 +135,19 @@ theorem prepare_ok (p : PeerTracker) (r : Req) (e : Ext) (w : Want) (hw : e.want
       | bad => simp [Ext.want?] at hw
       | absent =>
         simp only [Ext.want?, Option.some.injEq] at hw; subst hw
-        exact ⟨_, by simp [prepareQuery, runStages, runStage, stages], fin _ (V_dedup hf k)⟩
+        exact ⟨_, by simp [prepareQuery, runStages, runStage, stages, GS.Generated.PrepareQuery.stages], fin _ (V_dedup hf k)⟩
       | ok n =>
         simp only [Ext.want?, Option.some.injEq] at hw; subst hw
-        exact ⟨_, by simp [prepareQuery, runStages, runStage, stages], fin _ (V_skip (V_dedup hf k) n)⟩
+        exact ⟨_, by simp [prepareQuery, runStages, runStage, stages, GS.Generated.PrepareQuery.stages], fin _ (V_skip (V_dedup hf k) n)⟩
     | ok ls =>
       cases es with
       | bad => simp [Ext.want?] at hw
       | absent =>
         simp only [Ext.want?, Option.some.injEq] at hw; subst hw
-        exact ⟨_, by simp [prepareQuery, runStages, runStage, stages], fin _ (V_ignore (V_dedup hf k) ls)⟩
+        exact ⟨_, by simp [prepareQuery, runStages, runStage, stages, GS.Generated.PrepareQuery.stages], fin _ (V_ignore (V_dedup hf k) ls)⟩
       | ok n =>
         simp only [Ext.want?, Option.some.injEq] at hw; subst hw
-        exact ⟨_, by simp [prepareQuery, runStages, runStage, stages],
+        exact ⟨_, by simp [prepareQuery, runStages, runStage, stages, GS.Generated.PrepareQuery.stages],
           fin _ (V_skip (V_ignore (V_dedup hf k) ls) n)⟩
 
 /-! ### the operations of a thread are `Good` -/
